@@ -65,6 +65,9 @@ pub struct Exec {
     /// drop the `process` future after this many polls (if still pending)
     /// and start a new `process` on the same interface
     pub cancel_at: Option<u64>,
+    /// the transport's `read` is not cancel-safe: it takes the bytes off the link first and
+    /// suspends afterwards, so a read future that is dropped while pending loses them
+    pub read_takes_first: bool,
     /// on restart the controller continues with the next message: the
     /// delivery position is advanced to the next of these stream offsets
     pub restart_bounds: Vec<usize>,
@@ -85,6 +88,7 @@ impl Exec {
             gates: Vec::new(),
             eof_idle: false,
             cancel_at: None,
+            read_takes_first: false,
             restart_bounds: Vec::new(),
         }
     }
@@ -304,7 +308,9 @@ impl Adapter for SimTransport<'_> {
             self.w.log(Ev::TRead { room, got: 0, ok: false });
             return Err(t);
         }
-        self.w.suspend_point().await;
+        if !self.ex.read_takes_first {
+            self.w.suspend_point().await;
+        }
         let _g = Harness::enter();
         if room == 0 {
             self.zero_room = true;
@@ -329,6 +335,11 @@ impl Adapter for SimTransport<'_> {
         dst[..n].copy_from_slice(&self.ex.stream[self.pos..self.pos + n]);
         self.pos += n;
         self.w.log(Ev::TRead { room, got: n, ok: true });
+        if self.ex.read_takes_first {
+            // the bytes are off the link; only now does the future suspend
+            drop(_g);
+            self.w.suspend_point().await;
+        }
         Ok(n)
     }
 
